@@ -18,9 +18,9 @@ TUPLE = lambda k, v: {"t": "tuple", "pairs": [[{"v": k, "q": None}, v]], "trail"
 QSTR = lambda v: {"t": "qstr", "v": v, "q": '"'}
 WRONG = {
     "number": [("none", WORD("None"), None), ("list", LIST([INT(1), INT(2)]), [1, 2]), ("tuple", TUPLE("a", WORD("b")), {"a": "b"}), ("word", WORD("abc"), "abc"), ("empty-string", QSTR(""), ""),
-               ("empty-list", LIST([]), [])],
+               ("empty-list", LIST([]), []), ("true-word", WORD("True"), "True"), ("false-word", WORD("False"), "False")],
     "list:number": [("none", WORD("None"), None), ("none-item", LIST([INT(1), WORD("None")]), [1, None]), ("scalar", INT(3), 3), ("scalar-zero", INT(0), 0), ("empty-string", QSTR(""), ""), ("tuple", TUPLE("a", INT(1)), {"a": "1"}), ("bad-item", LIST([INT(1), WORD("abc")]), [1, "abc"]),
-                    ("nested-item", LIST([INT(1), LIST([INT(2)])]), [1, [2]])],
+                    ("nested-item", LIST([INT(1), LIST([INT(2)])]), [1, [2]]), ("bool-word-item", LIST([INT(1), WORD("False")]), [1, "False"])],
     "list:result": [("scalar-number", INT(3), 3), ("scalar-zero", INT(0), 0), ("tuple", TUPLE("a", WORD("b")), {"a": "b"}), ("number-item", LIST([INT(7)]), [7])],
     "result": [("number", INT(5), 5), ("list", LIST([INT(1)]), [1]), ("float", FLOAT(0.5), 0.5), ("zero", INT(0), 0), ("empty-list", LIST([]), [])],
     "boolean": [("none", WORD("None"), None), ("word", WORD("maybe"), "maybe"), ("decimal", FLOAT(0.5), 0.5), ("list", LIST([INT(1)]), [1]), ("empty-string", QSTR(""), ""), ("empty-list", LIST([]), [])],
